@@ -183,6 +183,11 @@ def run(tier):
     common.tlc_require_ok(r, "MC_Locks_sep")
     v.add_tlc(r)
     v.cov["mc_locks_sep"] = {"distinct_states": r.distinct}
+    if tier == "thorough":
+        # unbounded: the inductive invariant of LocksProof.tla (any number of handles in separate processes and of
+        # writers, behaviours of any length) re-checked by the TLA+ proof system
+        n_obl, wall = common.tlapm("LocksProof", deps=("Locks",))
+        v.cov["tlaps_obligations_proved"] = n_obl
     r2 = common.tlc("MC_Locks", cfg="MC_Locks_same.cfg", workers=4, timeout=300, name="mclocks-same", heap="4g")
     v.cov["mc_locks_same_counterexample"] = bool(r2.violated)
     if not r2.violated:
